@@ -257,4 +257,8 @@ def guardPasses (g : Guard) (creds : Bool) : Option Bool :=
   | .camliAuth => some creds
   | .open_ => none
 
+/-- pkg/server/root.go:175 `RootHandler.ServeHTTP` (not stealth): a discovery request is served only if
+`auth.Allowed(r, auth.OpDiscovery)`, else `auth.SendUnauthorized` -/
+def rootDiscovery (creds : Bool) : Bool := creds
+
 end Pk.Share
